@@ -1,4 +1,4 @@
-From Urwid Require Import Geometry.
+From Urwid Require Import Geometry GeometryX.
 From Coq Require Extraction ExtrOcamlBasic.
 Extraction Language OCaml.
-Extraction "model.ml" run_case.
+Extraction "model.ml" GeometryX.run_case.
